@@ -6,7 +6,10 @@ ROOT = os.path.dirname(os.path.dirname(os.path.abspath(__file__)))
 REPO = os.path.join(os.path.dirname(ROOT), "repo") if os.path.isdir(os.path.join(os.path.dirname(ROOT), "repo", "contracts")) else "/repo"
 ben = json.load(open(os.path.join(ROOT, "mutants", "benign.json")))
 checks = [c["property_id"] for c in json.load(open(os.path.join(ROOT, "MANIFEST.json")))["checks"]]
-only = sys.argv[1].split(",") if len(sys.argv) > 1 else None
+args = [a for a in sys.argv[1:]]
+if "--checks" in args:  # restrict the checks run per change (partial re-runs after one check changed)
+    i = args.index("--checks"); checks = args[i + 1].split(","); del args[i:i + 2]
+only = args[0].split(",") if args else None
 def clean():
     subprocess.run(["git", "-C", REPO, "checkout", "--", "."], check=True)
     subprocess.run(["git", "-C", REPO, "clean", "-fdq", "contracts", "packages"], check=True)  # files a patch added
@@ -34,7 +37,7 @@ try:
         res.append({"id": b["id"], "note": b.get("note"), "fired": fired})
 finally:
     clean()
-res_path = os.path.join(ROOT, "mutants", "benign_results.json")
+res_path = os.path.join(ROOT, "mutants", "benign_results.json" if "--checks" not in sys.argv else "benign_results_partial.json")
 if only and os.path.exists(res_path):
     prev = {r["id"]: r for r in json.load(open(res_path))}
     prev.update({r["id"]: r for r in res})
